@@ -44,6 +44,18 @@ def _mk_math():
 
 
 def check_shape(ctx, case):
+    """A tree operation that raises on a well-formed tree is a violation (bucket 'raised'), not a harness error."""
+    from . import engine as EN
+
+    try:
+        return _check_shape(ctx, case)
+    except Exception as ex:
+        if not EN.raised_in_code_under_test(ex):
+            raise
+        return ctx.fail(("raised",) + EN.exc_site(ex), case, {"error": repr(ex)[:200]})
+
+
+def _check_shape(ctx, case):
     from mathy_core.tree import STOP
 
     text = case["shape"]
